@@ -269,6 +269,7 @@ def run (ctx):
   _lldp_tlv_header(ctx, repo)
   _llc_control(ctx, repo)
   _unparsed_payload(ctx, repo)
+  _dirty_tracking(ctx, repo)
   _option_packers(ctx, repo)
   from . import c15b
   ctx.stat('TLV value slices compared', c15b.tlv_value_slices(ctx, [c for mn in ('tcp', 'dhcp', 'lldp', 'icmpv6', 'ipv6') for c in repo.mod(PK + '.' + mn).classes.values()], 'D2'))
@@ -616,6 +617,40 @@ def _option_packers (ctx, repo):
                      % (norm(a.test.left), norm(b.value)), (mod, b), 'D2')
   ctx.stat('nested-structure serialisers examined', n)
 
+def _dirty_tracking (ctx, repo):
+  """dhcp.hdr() re-emits its cached option bytes unless the options dict says it was changed (lib.util.DirtyDict): the old value
+  is compared *before* it is overwritten, or a replaced value never marks the dict dirty.  Also: a per-class counter that feeds a 16-bit
+  header field (ipv4.ip_id -> id) is reduced to 16 bits wherever it is stepped."""
+  um = repo.mod('lib.util'); dd = um.classes.get('DirtyDict')
+  f = dd.methods.get('__setitem__') if dd is not None else None
+  if f is not None and len(f.params) >= 3:
+    ctx.analysed(f); g = q.cfg_of(f); kp = f.params[1]
+    stores = g.nodes_with_call(lambda c: call_name(c) == '__setitem__' and norm(c.func.value) in ('dict', 'super()', 'super(DirtyDict, self)'))
+    reads = [n_ for n_ in g.nodes if n_.ast is not None and n_.kind == 'cond' and any(isinstance(x_, ast.Subscript) and norm(x_.value) == 'self' and norm(x_.slice) == kp for x_ in ast.walk(n_.ast))]
+    if stores and reads:
+      late = [r_ for r_ in reads if any(g.dominates(s_, r_, exc=False) for s_ in stores)]
+      ctx.ob('R-ORDER', f, "the old value is compared before it is overwritten", not late, "`self[k] != v` precedes dict.__setitem__" if not late else
+             "`%s` is evaluated after the new value was stored: it compares the new value with itself, so replacing the value of an existing key never marks the dict dirty - dhcp.hdr() then emits its cached option bytes, "
+             "and the serialised packet carries the old option values" % late[0].text(40), (um, late[0].ast) if late else f, 'D5')
+    else:
+      ctx.undecided('R-ORDER', f, "the old value is compared before it is overwritten", "store / comparison not recognised", f, 'D5')
+  m4 = repo.mod(PK + '.ipv4'); c4 = m4.classes.get('ipv4')
+  if c4 is not None:
+    hd = c4.methods.get('hdr'); H, hsize, hcall = _hdr_items(repo, c4, hd) if hd is not None else (None, None, None)
+    idw = [w for o, w, c, name, a in (H or []) if name == 'id']
+    if idw and idw[0] == 2:
+      bad = []; n_ = 0
+      for fn_ in c4.methods.values():
+        for t, v, st, k in q.stores_in(fn_.node):
+          if norm(t) not in ('ipv4.ip_id', 'self.ip_id', 'cls.ip_id'): continue
+          n_ += 1
+          masked = k == 'assign' and isinstance(v, ast.BinOp) and ((isinstance(v.op, ast.BitAnd) and isinstance(q.try_int(v.right), int) and q.try_int(v.right) <= 0xffff) or (isinstance(v.op, ast.Mod) and isinstance(q.try_int(v.right), int) and q.try_int(v.right) <= 0x10000))
+          if not masked: bad.append(st)
+      if n_:
+        ctx.ob('R-AGREE', c4, "the datagram id counter stays within the 16-bit field it fills", not bad, "%d store(s), each reduced to 16 bits" % n_ if not bad else
+               "`%s` steps the per-class counter without reducing it to 16 bits; its value becomes the default `id` of every new header and hdr() packs it with a 2-byte code: once the counter passes 0xffff no freshly built IPv4 packet "
+               "can be serialised (struct.error)" % norm(bad[0])[:50], (m4, bad[0]) if bad else c4, 'D5')
+
 def _unparsed_payload (ctx, repo):
   """IPv4 / IPv6: a next-layer object that could not parse its bytes is replaced by those bytes (confirmed on the reference tree
   for exactly these two parsers; icmp.parse, for one, keeps no raw copy, so an unparsed icmp object re-packs as an invented header)"""
@@ -640,6 +675,12 @@ def _unparsed_payload (ctx, repo):
       ctx.undecided('R-EFFECT', f, "an unparsed next-layer object is replaced by its bytes", "no next-layer constructor found in parse()", f, 'D2'); continue
     good = bool(fallback) and all(any(fb in g.reachable(c_, exc=False) for fb in fallback) for c_ in ctor if c_ is not None)
     if not good and other_fb: good = None      # something is stored when the next layer did not parse, but not recognisably the bytes
+    # ... for *every* object that did not parse: no further condition on the object decides whether it is replaced
+    extra = [x for fb in fallback for x in q.fact_strs(g, fb) if 'self.next' in x and '.parsed' not in x and not x.startswith('isinstance(self.next') and 'self.next:' not in x]
+    if good and extra:
+      ctx.bad('R-EFFECT', f, "every next-layer object that did not parse is replaced by its bytes (no further condition)",
+              "the replacement only happens when also `%s`: an object that did not parse but fails that test stays in place, and re-serialising builds a fresh header for it - e.g. a UDP datagram shorter than its 8-byte header "
+              "comes back 8 bytes longer, with the IPv4 total length changed" % extra[0], (mod, fallback[0].ast), 'D2')
     ctx.ob('R-EFFECT', f, "an unparsed next-layer object is replaced by its bytes", good, "self.next = raw[...] under `not self.next.parsed` after every constructor" if good else
            "%s.parse keeps a next-layer object that did not parse: packet_base.pack() re-emits such an object from its `raw` copy, which icmp.parse (for one) never stores - an IPv4 datagram with a truncated ICMP header is re-serialised with an invented 4-byte header, longer than it was received"
            % cname, f, 'D2')
